@@ -3,7 +3,7 @@
 From Coq Require Import List NArith ZArith Bool Arith Lia Permutation.
 From SK Require Import lib.IRSortKeys lib.IRCore lib.IRSearch model.C18_Model
   proof.C18_Order proof.C18_Spec proof.C18_Graph proof.C18_Canon proof.C18_Equiv proof.C18_Label proof.C18_Aut
-  proof.C18_Invariant proof.C18_Wf proof.C18_Count.
+  proof.C18_Invariant proof.C18_Wf proof.C18_Count proof.C18_View.
 Import ListNotations.
 
 (* ---------------- a checker for Permutation on concrete lists ---------------- *)
@@ -157,4 +157,11 @@ Proof.
   assert (I : In leaf_b (min_leaves g1)) by (rewrite min_leaves_g1; right; left; reflexivity).
   pose proof (aut_count g1 lab1 p1 wf_g1 kinds_g1 arcs_g1 best1) as H.
   exact (proj1 (proj1 (proj2 H) leaf_b) I).
+Qed.
+
+(** C18_view_wf: the premises hold for the example network *)
+Example ex_view_wf : coeffs_ok n1 /\ net_closed n1.
+Proof.
+  split; intros r Hr sc Hsc; simpl in Hr; destruct Hr as [<-|[<-|[]]]; simpl in Hsc;
+    destruct Hsc as [<-|[<-|[]]]; simpl; try lia; auto.
 Qed.
